@@ -1,25 +1,35 @@
 -- GENERATED from src/mxlpy/model.py::Model._create_cache/_get_args/get_arg_names by /verif/translate/c01.py; do not edit (rewritten on every run)
 namespace Mxl.Generated.C01Cache
 
-/-- `to_sort = initial_assignments | self._derived | self._reactions | self._surrogates` -/
+/-- `to_sort`: the union of ias | derived | rxns | surs in this order -/
 def toSortOf {α : Type} (u : α → α → α) (ias derived rxns surs : α) : α :=
   (u (u (u ias derived) rxns) surs)
 
-/-- `available = set(base_parameter_values) | set(base_variable_values) | set(self._data) | {'time'}` -/
+/-- `available`: the union of pars | vars | data | time in this order -/
 def availableOf {α : Type} (u : α → α → α) (pars vars data time : α) : α :=
   (u (u (u pars vars) data) time)
 
-/-- `dependent = base_parameter_values | base_variable_values | self._data | {'time': 0.0}` -/
+/-- `dependent`: the union of pars | vars | data | time in this order -/
 def dependentOf {α : Type} (u : α → α → α) (pars vars data time : α) : α :=
   (u (u (u pars vars) data) time)
 
-/-- `args = cache.all_parameter_values | variables | self._data` -/
+/-- `args`: the union of allpars | state | data in this order -/
 def argsOf {α : Type} (u : α → α → α) (allpars state data : α) : α :=
   (u (u allpars state) data)
 
-/-- `containers = self._derived | self._reactions | self._surrogates` -/
+/-- `containers`: the union of derived | rxns | surs in this order -/
 def containersOf {α : Type} (u : α → α → α) (derived rxns surs : α) : α :=
   (u (u derived rxns) surs)
+
+/-- how `_create_cache` files a sorted name before it looks at derived quantities -/
+inductive Kind where
+  | dynamic | static | derived
+deriving DecidableEq, Repr
+
+/-- the if / elif chain of the split loop (the last `else` = a derived quantity: static and added to the
+    parameter names iff all its arguments are parameter names, which start as ALL parameters) -/
+def classifyKind (inReactions inSurrogates inVariables inParameters : Bool) : Kind :=
+  if (inReactions || inSurrogates) then Kind.dynamic else if (inVariables || inParameters) then Kind.static else Kind.derived
 
 /-- `get_arg_names`: (flag consulted, group appended) in the order of the method body -/
 def argGroups : List (String × String) :=
